@@ -58,7 +58,7 @@ Enc(v, reg, D) ==
     [] v.ty = "barrierErr" -> Leaf(v.s, <<>>, <<P("EncodedError", <<>>, <<>>, <<Enc(v.hid[1], reg, D)>>, <<>>)>>)
     [] v.ty = "uRegLeaf" -> Leaf(v.s, <<>>, <<P("String", v.s, <<>>, <<>>, <<>>)>>)
     [] v.ty = "uProtoLeaf" -> Leaf(v.s, <<>>, <<P("uProto", v.s, <<>>, <<>>, <<>>)>>)
-    [] v.ty \in LeafTy -> Leaf(Text(v), <<>>, <<>>)
+    [] v.ty \in LeafTy /\ ~IsWrap(v) -> Leaf(Text(v), <<>>, <<>>)
     \* ---- multi-cause nodes travel as leaves with causes
     [] v.ty = "joinError" -> Leaf(IF "JoinEncodesEmptyMsg" \in D THEN <<>> ELSE Text(v), <<>>, <<>>)
     [] v.ty \in MultiTy -> Leaf(Text(v), <<>>, <<>>)
